@@ -26,6 +26,7 @@ inductive Outcome where
 structure Res where
   out : Outcome
   alloc : Nat
+  rest : Bytes          -- what is left unread on the stream
   deriving DecidableEq, Repr
 
 /-- `maxHeaderBytes()` (client.go:139): non-positive = the 10 MiB default -/
@@ -35,20 +36,25 @@ def maxHeaderBytes (configured : Int) : Nat :=
 /-- the frame-level part of `ReadResponse` on a stream that delivers `input` and then ends -/
 def readHead (max : Nat) (input : Bytes) : Res :=
   match parseNext (input.length + 1) input with
-  | (.error _, _) => ⟨.frameError, 0⟩
+  | (.error _, rest) => ⟨.frameError, 0, rest⟩
   | (.ok (.headers l), rest) =>
-    if l > max then ⟨.tooLarge l, 0⟩
-    else if rest.length < l then ⟨.truncated, l⟩
-    else ⟨.block (rest.take l) (rest.drop l), l⟩
-  | (.ok (.settings _), _) => ⟨.notHeaders, 0⟩
-  | (.ok (.data _), _) => ⟨.notHeaders, 0⟩
+    if l > max then ⟨.tooLarge l, 0, rest⟩
+    else if rest.length < l then ⟨.truncated, l, []⟩
+    else ⟨.block (rest.take l) (rest.drop l), l, rest.drop l⟩
+  | (.ok (.settings _), rest) => ⟨.notHeaders, 0, rest⟩
+  | (.ok (.data _), rest) => ⟨.notHeaders, 0, rest⟩
 
-def render (r : Res) : String :=
+/-- class as the lane observes it: which error code the stream / connection is closed with
+(`frame-error`: H3_FRAME_ERROR on the stream — a parse failure or a block above the limit;
+`truncated`: H3_REQUEST_INCOMPLETE; `not-headers`: H3_FRAME_UNEXPECTED on the connection), how many
+bytes were taken from the stream and how large the payload buffer was. -/
+def render (input : Bytes) (r : Res) : String :=
   (match r.out with
-   | .block p _ => "block " ++ toString p.length
-   | .tooLarge _ => "too-large"
+   | .block _ _ => "block"
+   | .tooLarge _ => "frame-error"
    | .truncated => "truncated"
    | .notHeaders => "not-headers"
-   | .frameError => "frame-error") ++ " alloc=" ++ toString r.alloc
+   | .frameError => "frame-error") ++
+  " consumed=" ++ toString (input.length - r.rest.length) ++ " alloc=" ++ toString r.alloc
 
 end Req.C07.H3Budget
